@@ -287,7 +287,13 @@ def record_candidates(it, rec, k):
     ck = _const_key(k)
     if ck is not None:
         return [(ck, z3.BoolVal(True))] if ck in rec.fields else []
-    return [(f, k.t == S.str_lit(f)) for f in rec.fields]
+    out = []
+    for f in rec.fields:
+        cond = k.t == S.str_lit(f)
+        if it.must_hold(z3.Not(cond)):
+            continue  # the path condition excludes this key
+        out.append((f, cond))
+    return out
 
 
 def record_has(it, obj, k):
